@@ -1,5 +1,6 @@
 import Pymc.Model.Stacks
 import Pymc.Generated.Consts
+import Pymc.Proofs.Stacks
 /-!
 # C16 — PooledClient, single-server HashClient and RetryingClient behave like Client
 
@@ -58,6 +59,68 @@ theorem C16_pooled_ctor_accepts_client_options :
 
 /-- the one deliberate difference: the pooled connections always raise (the pool must learn about failures) -/
 theorem C16_pooled_inner_clients_always_raise : ("ignore_exc", "False") ∈ pooledCreateClientKw := by decide +kernel
+
+/-! ## the general statement about the model -/
+
+/-- **C16** (binding is total on the signature): a call that binds gives every parameter of the signature exactly one
+value, in signature order — the caller's positional or keyword argument, or `default:<the signature's default>`. -/
+theorem C16_binding_covers_all_params (s : Sig) (pos : List String) (kw : List (String × String))
+    (b : List (String × String)) (hb : bind s pos kw = some b) : b.map (·.1) = s.map (·.1) :=
+  bind_names s pos kw b hb
+
+/-- **C16** (general forwarding theorem, for ALL signatures, forwarding entries and calls): if the wrapper method `m`
+with signature `s` forwards well (`wellForwarded`: it calls the method of the same name, passes its parameters
+positionally in signature order and then by keyword `name=name`, all of them, and the signature has distinct plain
+parameters), and the caller's arguments `pos`, `kw` bind to `b`, then the arguments the inner `Client` method (same
+signature `s`) receives exist (`innerArgs` finds every value) and bind to exactly the same `b`: every parameter gets the
+caller's value, or the same default. -/
+theorem C16_forwarding_preserves_binding (m : String) (s : Sig) (f : Forward) (pos : List String)
+    (kw : List (String × String)) (b : List (String × String))
+    (hw : wellForwarded m s f = true) (hb : bind s pos kw = some b) :
+    ∃ ip ik, innerArgs f b = some (ip, ik) ∧ bind s ip ik = some b :=
+  forwarding_preserves_binding m s f pos kw b hw hb
+
+/-- `Client`'s signature of a method, and `PooledClient`'s forwarding entry for it, from the generated tables -/
+def clientSig (m : String) : Sig := (lookup clientSigs m).getD []
+def pooledFwd (m : String) : Forward := ((pooledForward.find? (·.1 = m)).map toForward).getD ⟨"", [], []⟩
+
+/-- **C16** (the theorem on the current source): for every key-addressed method `m`, whatever arguments a caller gives
+`PooledClient.m` — if they are valid for `Client.m` and bind to `b` there, then they are valid for `PooledClient.m` and bind
+to `b` (same signature), and the call `PooledClient.m` makes on the pooled `Client` is to the method `m` with arguments that
+bind to that same `b`. -/
+theorem C16_pooled_calls_bind_like_client :
+    ∀ m ∈ keyMethods, ∀ (pos : List String) (kw b : List (String × String)),
+      bind (clientSig m) pos kw = some b →
+      lookup pooledSigs m = some (clientSig m) ∧ (pooledFwd m).target = m ∧
+      ∃ ip ik, innerArgs (pooledFwd m) b = some (ip, ik) ∧ bind (clientSig m) ip ik = some b := by
+  intro m hm pos kw b hb
+  have hsig := C16_pooled_signatures_eq_client m hm
+  have hwf := C16_pooled_forwarding_wellformed m hm
+  obtain ⟨s, hs⟩ := Option.isSome_iff_exists.mp hsig.2
+  have hcs : clientSig m = s := by simp [clientSig, hs]
+  rw [hs] at hwf
+  cases he : pooledForward.find? (·.1 = m) with
+  | none => simp [he] at hwf
+  | some e =>
+    rw [he] at hwf
+    have hfw : pooledFwd m = toForward e := by simp [pooledFwd, he]
+    have hwf' : wellForwarded m s (toForward e) = true := hwf
+    subst hcs
+    rw [hfw]
+    refine ⟨hsig.1.trans hs, ?_, C16_forwarding_preserves_binding m _ _ pos kw b hwf' hb⟩
+    simp only [wellForwarded, Bool.and_eq_true, decide_eq_true_eq] at hwf'
+    exact hwf'.1.1.1.1
+
+/-- non-vacuity: `gats("k", 30, cas_default="C")` on the pooled client: `key`, `expire` go positionally, the others by
+keyword, and the inner call binds as the outer one did -/
+example :
+    bind (clientSig "gats") ["k", "30"] [("cas_default", "C")] =
+      some [("key", "k"), ("expire", "30"), ("default", "default:None"), ("cas_default", "C")] ∧
+    innerArgs (pooledFwd "gats") [("key", "k"), ("expire", "30"), ("default", "default:None"), ("cas_default", "C")] =
+      some (["k", "30", "default:None", "C"], []) := by decide +kernel
+/-- without `Nodup` the general theorem is false: with a repeated parameter name the second copy is unreachable -/
+example : bind [("a", "REQUIRED"), ("a", "1")] ["x", "y"] [] = some [("a", "x"), ("a", "y")] ∧
+    innerArgs ⟨"m", ["a", "a"], []⟩ [("a", "x"), ("a", "y")] = some (["x", "x"], []) := by decide +kernel
 
 example : lookup clientSigs "gats" =
     some [("key", "REQUIRED"), ("expire", "0"), ("default", "None"), ("cas_default", "None")] := by decide +kernel
